@@ -19,7 +19,9 @@ chain vs table entry by entry, next vs prev pointers, lookup index vs members), 
 len, membership and the internal parts unchanged) and alias_ok (mutating a copy left the
 original unchanged).
 """
+import itertools
 import json
+import signal
 import sys
 
 from pytableaux.tools.hybrids import qset
@@ -31,6 +33,29 @@ EXN = {'DuplicateValueError': 1, 'MissingValueError': 2, 'IndexError': 3, 'Value
        'KeyError': 5, 'TypeError': 6, 'AttributeError': 7}
 SINGLE = {'append', 'add', 'insert', 'remove', 'discard', 'delidx', 'pop', 'setidx', 'sort',
           'reverse', 'clear', 'copy', 'wedge'}
+
+
+LIMIT = 200          # no container in a run is longer; a longer iteration is a cyclic chain
+STEP_SECONDS = 2.0   # watchdog for one operation or one observation
+
+
+class Hang(Exception):
+    pass
+
+
+def _alarm(signum, frame):
+    raise Hang('watchdog')
+
+
+def bounded(it):
+    res = list(itertools.islice(iter(it), LIMIT + 1))
+    if len(res) > LIMIT:
+        raise Hang('iteration does not end')
+    return res
+
+
+def arm():
+    signal.setitimer(signal.ITIMER_REAL, STEP_SECONDS)
 
 
 def exn_code(e):
@@ -94,7 +119,7 @@ class Adapter:
                         and all(a is b for a, b in zip(fwd, bwd[::-1]))
                         and (not fwd or (fwd[0].prev is None and fwd[-1].next is None))
                         and all(table.get(l.value) is l for l in fwd)
-                        and [l.value for l in fwd] == list(c))
+                        and [l.value for l in fwd] == bounded(c))
             ok = len(c._seq_) == len(c._set_) and set(c._seq_) == c._set_
             if self.kind == 'Predicates':
                 want = {}
@@ -113,7 +138,7 @@ class Adapter:
             return ('broken', type(e).__name__)
 
     def _snapshot(self, c):
-        return (list(map(self.back, c)), len(c), [self.val(v) in c for v in self.universe],
+        return (list(map(self.back, bounded(c))), len(c), [self.val(v) in c for v in self.universe],
                 self.internals(c))
 
     def obs(self, c):
@@ -123,7 +148,7 @@ class Adapter:
             return [['broken', type(e).__name__], [-1], [], [], []]
 
     def _obs(self, c):
-        res = [list(map(self.back, c)), [len(c)], [int(self.val(v) in c) for v in self.universe]]
+        res = [list(map(self.back, bounded(c))), [len(c)], [int(self.val(v) in c) for v in self.universe]]
         idx = []
         for v in self.universe:
             try:
@@ -208,6 +233,7 @@ def run_seq(ad, seq, trace):
         single = op[0] in SINGLE
         before = ad.snapshot(c) if single else None
         code = 0
+        arm()
         try:
             c2 = ad.apply(c, op)
         except Exception as e:
@@ -225,6 +251,7 @@ def run_seq(ad, seq, trace):
         alias_ok = True
         if orig is not None and op[0] != 'copy':
             alias_ok = ad.snapshot(orig[0]) == orig[1]
+        arm()
         last = [code, ad.obs(c) if trace else None, noop_ok, alias_ok, ad.rep_ok(c)]
         if trace:
             out.append(last)
@@ -232,12 +259,14 @@ def run_seq(ad, seq, trace):
         return out
     if last is None:
         return [0, ad.obs(c), True, True, True]
+    arm()
     last[1] = ad.obs(c)
     return last
 
 
 def main():
     req = json.load(sys.stdin)
+    signal.signal(signal.SIGALRM, _alarm)
     ad = Adapter(req['kind'], req['universe'], req['gidx'])
     trace = req.get('mode') == 'trace'
     if 'menu' in req:       # compact form: sequences as tuples of menu indices
@@ -246,6 +275,7 @@ def main():
     else:
         seqs = req['seqs']
     res = [run_seq(ad, seq, trace) for seq in seqs]
+    signal.setitimer(signal.ITIMER_REAL, 0)
     json.dump(res, sys.stdout, separators=(',', ':'))
 
 
